@@ -629,8 +629,8 @@ def suite_malformed(out, tier, seed):
         for _ in range(20):
             ms.append(("random", None, bytes(rnd.randrange(256) for _ in range(rnd.randint(0, 60)))))
         # type confusion: an INTEGER sent where an OCTET STRING belongs and the other way round (a datagram that still decodes)
-        confusion = [("subst", (p, {0x02: 0x04, 0x04: 0x02}[data[p]]), data[:p] + bytes([{0x02: 0x04, 0x04: 0x02}[data[p]]]) + data[p + 1:])
-                     for p in hp if data[p] in (0x02, 0x04)]
+        confusion = [("subst", (p, v), data[:p] + bytes([v]) + data[p + 1:])
+                     for p in hp if data[p] in (0x02, 0x04) for v in ({0x02: (0x04, 0x43, 0x41), 0x04: (0x02, 0x44)}[data[p]])]
         if tier == "quick":
             rnd.shuffle(ms)
             ms = ms[:40] + confusion
